@@ -11,8 +11,9 @@
                compared exactly.
   * `jac`    : `jacGradient` (slot packing, seeds, clear_vars) on the real slot values.
   * `feat`   : `featList` with the oracle answered from the table of real `Feature::push` answers
-               and the real stale scratch; feature lists compared exactly (as multisets).
-  Output: `ok …` / `MISMATCH …` / `skip …` / `hyp …` (a theorem hypothesis that fails on this case).
+               (no scratch is read since the fixes aa9f57c / 3ea66fb); feature lists compared exactly
+               (as multisets).
+  Output: `ok …` / `MISMATCH …` / `skip …`.
 -/
 import Driver.Parse
 import LibfiveModel.DerivFloat
@@ -312,37 +313,21 @@ def checkFeat (st : St) : List String := Id.run do
         | some r => r
         | none => some [sentinel]
       normZero := v3normZero, veq := v3eq, sub := v3sub, negv := v3neg }
-  let LANES := 40
-  let staleOf (id : Nat) : Array Float32 := match st.stale.find? (·.1 == id) with
-    | some (_, a) => a
-    | none => #[]
-  let staleV : Nat → Nat → Float32 := fun id l => arrGet (staleOf id) (4 * l)
-  let staleD : Nat → Nat → V3 Float32 := fun id l =>
-    let a := staleOf id; ⟨arrGet a (4 * l + 1), arrGet a (4 * l + 2), arrGet a (4 * l + 3)⟩
   -- clause by clause on the REAL operand feature lists
   let mut out : List String := []
-  let mut hyp : List String := []
   let mut cs := st.csimd
   let mut nties := 0
   let mut nclauses := 0
   for c in st.ftape.t.reverse do
     let fa := realF c.a; let fb := realF c.b
-    let S : FeatScratch Float32 := ⟨cs, staleD, staleV⟩
-    let (raw, cs') := featClauseRaw dopsF32 F false 256 16 S c v realF
+    let (raw, cs') := featClauseRaw dopsF32 F false 256 16 cs c v realF
     let model := dedupFeats raw
     let real := realF c.id
     nclauses := nclauses + 1
     let tied := (c.op == Op.min || c.op == Op.max) && c.a != c.b && !(v c.a < v c.b) && !(v c.b < v c.a)
     if tied then nties := nties + 1
-    -- hypotheses of `feature_is_branch_gradient`
     let isMinMax := c.op == Op.min || c.op == Op.max
-    if !isMinMax && c.op.args == some 2 && fa.length * fb.length > cs then
-      hyp := hyp ++ [s!"hyp setCount {tag} clause {c.id} {c.op.pname} pairs {fa.length * fb.length} count_simd {cs}"]
-    if c.op == Op.sqrt && fa.length > 1 then
-      hyp := hyp ++ [s!"hyp sqrt-ov {tag} clause {c.id} features {fa.length}"]
-    if !isMinMax && (fa.length > LANES || fa.length * fb.length > LANES) then
-      out := out ++ [s!"skip lanes {tag} clause {c.id}"]
-    else if raw.any (fun f => f.eps.any (fun e => e.x.toBits == sentinel.x.toBits)) then
+    if raw.any (fun f => f.eps.any (fun e => e.x.toBits == sentinel.x.toBits)) then
       out := out ++ [s!"MISMATCH oracle-miss {tag} clause {c.id} {c.op.pname}"]
     else if isMinMax || exactKernel c.op then
       if !sameMultiset model real then
@@ -369,8 +354,8 @@ def checkFeat (st : St) : List String := Id.run do
     out := out ++ [s!"MISMATCH flist {tag} model {modelList.length} real {lst.length}"]
   let bad := out.filter (·.startsWith "MISMATCH")
   if bad.isEmpty then
-    return hyp ++ out ++ [s!"ok feat {tag} clauses {nclauses} ties {nties} rootfeatures {rawReal.length} oracle-queries {tab.length}"]
-  else return hyp ++ out
+    return out ++ [s!"ok feat {tag} clauses {nclauses} ties {nties} rootfeatures {rawReal.length} oracle-queries {tab.length}"]
+  else return out
 
 def checkInside (st : St) (ws : List String) : List String :=
   -- ws: <inside> root <id> checks n (pos neg normpos)*
